@@ -554,8 +554,10 @@ def run_property(pid, mod, tier, seed, replay=None, corpus_only=False):
         report_violation(r[0], r[3])
         if n_viol >= 4 or len(seen_classes) >= 40:   # known findings do not use up the budget
             break
-    if not viol:
-        if disagree:
+    if n_viol == 0:   # no violation beyond the recorded findings: the tie itself must still hold
+        unexplained = [r for r in disagree if not (r[2] is False and match_known(known, pid, mod, r[0], r[3]))]
+        if unexplained:
+            disagree = unexplained
             case2, detail2 = shrink(mod, b.binary, disagree[0][0], disagree[0][3], want="disagree")
             path = write_replay(pid, {"property": pid, "kind": "correspondence-broken", "what": "model and implementation disagree; the Spec oracle accepts the implementation's output on every explored case", "case": case2, "detail": detail2, "disagreements": len(disagree), "seed": seed, "tier": tier})
             lines.append(f"VIOLATION property={pid} replay={path} no-failing-input-found")
